@@ -2,6 +2,7 @@
 # usage: tools/try_mutant.sh <patch.diff> <Cxx> [<Cyy> ...]
 # applies the patch to /repo, runs the given checks (quick tier), ALWAYS reverts /repo afterwards.
 set -u
+export VERIF_EVIDENCE_DIR=/tmp/opfverif-mutant-evidence
 patch="$1"; shift
 cd /repo || exit 2
 if ! git diff --quiet; then echo "/repo is dirty"; exit 2; fi
